@@ -536,4 +536,32 @@ example : (run demo).map (·.result) = [some (.answer 0)] ∧ (run demo).map (·
 example : ((run [.newRequest, .newRequest, .caller 0, .caller 1, .caller 0, .caller 1, .arrive 1, .arrive 0, .arrive 0,
     .disp 1 0, .disp 1 0, .disp 1 0, .disp 1 0, .disp 0 1, .disp 0 1, .disp 0 1, .disp 0 1, .caller 1, .caller 0]).map (·.cpc)) = [.woke, .woke] := by decide
 
+/-! ### the order of the pinned tree (queue the request first, register the waiter second) does NOT
+have the property: a concrete schedule in which the answer is dropped and the caller waits for ever -/
+
+/-- caller step of the pinned tree: `set_outgoing_message` before `insert_pending_answer` -/
+def callerStepPinned (r : Rec) : Option Rec :=
+  match r.cpc with
+  | .start => some { r with cpc := .registered }                    -- request queued, waiter not yet registered
+  | .registered => some { r with cpc := .waiting, reg := true }      -- now registered, goes to wait
+  | _ => callerStep r
+
+/-- in the pinned order the peer can answer as soon as the request is queued -/
+def sentPinned (r : Rec) : Bool := match r.cpc with | .start => false | _ => true
+
+def pinnedRun : Rec :=
+  -- caller queues the request; the answer arrives and is checked before the waiter is registered; then the caller registers and waits
+  let r0 := Rec.init
+  let r1 := (callerStepPinned r0).getD r0
+  let r2 := if sentPinned r1 then { r1 with disp := r1.disp ++ [.check] } else r1
+  let r3 := (dispStep r2 0).getD r2
+  let r4 := (callerStepPinned r3).getD r3
+  r4
+
+/-- the answer has been dropped, nothing can move, and the caller is still waiting: the statement's
+    "a caller whose answer has arrived is always woken" fails for the pinned order -/
+theorem pinned_order_loses_wakeup :
+    pinnedRun.cpc = .waiting ∧ pinnedRun.disp = [.dropped] ∧ (callerStepPinned pinnedRun).isNone = true ∧
+    (dispStep pinnedRun 0).isNone = true := by decide
+
 end BV.C14
